@@ -742,6 +742,24 @@ pub fn c18(thorough: bool) -> Vec<Part> {
         m.respond_any = false;
         cfgs.push(m);
     }
+    {
+        // the kill switch is installed at any moment (its eventfd takes the lowest free number,
+        // possibly one a released connection had); late duplicate answers for released
+        // connections are handed in
+        let mut quitter = ClientCfg::adversary(vec![tagged_get(0, 0)]);
+        quitter.reads = true;
+        quitter.can_shut_rd = false;
+        quitter.can_shut_wr = false;
+        let mut inst = SrvCfg::base("C18", "kill switch installed at any moment (descriptor numbers of released connections), late duplicate answers, kill at every point", vec![quitter, ClientCfg::well_behaved(vec![tagged_get(1, 0)])]);
+        inst.kill_switch = true;
+        inst.kill_switch_late = true;
+        inst.kill_install_action = true;
+        inst.kill_action = true;
+        inst.late_duplicates = true;
+        inst.twin_without_kill = true;
+        inst.orders = Orders::AscRev;
+        cfgs.push(inst);
+    }
     // all_ready seed
     let mut clients = vec![];
     for c in 0..10 {
@@ -761,14 +779,21 @@ pub fn c18(thorough: bool) -> Vec<Part> {
     cfgs.push(c);
     // at capacity with a refused client that already closed, then kill
     let mut clients = vec![];
-    for _ in 0..10 {
+    for _ in 0..9 {
         clients.push(ClientCfg::filler());
     }
+    // one of the ten established connections may hang up (nothing outstanding) at any time
+    let mut idle = ClientCfg::adversary(vec![]);
+    idle.preconnected = true;
+    idle.can_shut_rd = false;
+    idle.can_shut_wr = false;
+    idle.reads = true;
+    clients.push(idle);
     let mut late = ClientCfg::adversary(vec![]);
     late.can_shut_rd = false;
     late.can_shut_wr = false;
     clients.push(late);
-    let mut d = SrvCfg::base("C18", "at capacity: an 11th client connects and may close before being handled; kill at every point", clients);
+    let mut d = SrvCfg::base("C18", "at capacity: one established connection may hang up, an 11th client connects and may close before being handled; kill at every point", clients);
     d.kill_switch = true;
     d.kill_action = true;
     d.twin_without_kill = true;
@@ -933,6 +958,13 @@ pub fn c11_server(thorough: bool) -> Part {
         let mut c = mk("nine malformed requests in a row, then a valid request", script, vec![], vec![(0, 1)]);
         c.max_depth = 80;
         cfgs.push(c);
+        // malformed input of exactly one buffer's length with a valid request right behind it
+        let mut exact = b"BAD ".to_vec();
+        exact.extend(std::iter::repeat(b'y').take(crate::connx::buffer_size() - 6));
+        exact.extend_from_slice(b"\r\n");
+        let mut both = exact.clone();
+        both.extend_from_slice(&tagged_get(0, 2));
+        cfgs.push(mk("malformed input of exactly the buffer size, then valid requests (next segment / same segment)", vec![exact, tagged_get(0, 1), both], vec![], vec![(0, 1)]));
         let mut junk = vec![b'x'; 9000];
         junk.extend_from_slice(b"\r\n");
         let mut c = mk("9000 bytes of garbage in one segment, then a valid request", vec![junk, tagged_get(0, 1)], vec![], vec![(0, 1)]);
